@@ -40,6 +40,15 @@ CLAIMED["C05"] = dict(
     note="Trusted: the outside wrappers do not change behaviour. Documented input rejections (UserWarning) are not counted as non-convergence. "
          "Two known findings (duplicate controlled junction; bidirectional+automatic restore) are suppressed by narrow signatures.",
     ref="DESIGN.md 4/C05")
+CLAIMED["C07"] = dict(
+    technique="differential PBT: twin numba/numpy kernels on generated arrays, numba-vs-numpy end-to-end, model-free history check of matrix-update/reuse against a fresh net",
+    text="Exploration: (1) the twin kernels are called directly with generated pit arrays over-sampling zero / tiny / NaN flow, equal end "
+         "pressures, zero length, switched direction and compared to 1e-12 relative; (2) generated hydraulic and heating nets are solved "
+         "with both engines in all modes and compared (NaN pattern, cross-run tolerance, convergence verdict); (3) generated load-edit "
+         "histories on one net object with only_update_hydraulic_matrix + reuse_internal_data are compared bit-exactly with a fresh net.",
+    note="Trusted: the comparison tolerances of DESIGN 2.3 (Re/lambda lag the mass flow by one Newton step). Derivatives of the mean pressure "
+         "are compared only for |dp| > 1e-4 p (unbounded cancellation). Transient kernels out of scope. Known finding: dead-end pump verdict.",
+    ref="DESIGN.md 4/C07")
 NOT_YET = {}
 
 def main():
